@@ -182,7 +182,7 @@ Record request := {
   (* Header == nil -> None; otherwise key |-> first value, for keys with a value *)
   rq_header : option (list (str * str)) }.
 (* what net/url computed for a *url.URL (passed in as data by the harness) *)
-Record urlinfo := { u_scheme : str; u_rawquery : str; u_requri : str; u_string : str }.
+Record urlinfo := { u_scheme : str; u_host : str; u_rawquery : str; u_requri : str; u_string : str }.
 Record event := {
   e_dur : Z;                    (* End.Sub(Start).Nanoseconds() *)
   e_unix : Z; e_nsec : Z; e_off : Z;     (* End *)
@@ -240,15 +240,26 @@ Definition rfc3339_prefix (c : civil) : list (outcome str) :=
   [atoi (c_year c) 4; lit [45]; atoi (c_month c) 2; lit [45]; atoi (c_day c) 2; lit [84];
    atoi (c_hour c) 2; lit [58]; atoi (c_min c) 2; lit [58]; atoi (c_sec c) 2].
 
+(* $request_host (since 5d3ea07): the host of the request URL saved before any rewrite when
+   there is one, else Request.Host *)
+Definition request_host (e : event) : outcome str :=
+  match e_requrl e with
+  | Some u => Ok (u_host u)
+  | None => with_req e (fun r => Ok (rq_host r))
+  end.
+(* before 5d3ea07: always Request.Host, i.e. the host a host= route option wrote into the live
+   request; refutation theorem only *)
+Definition request_host_unrepaired (e : event) : outcome str := with_req e (fun r => Ok (rq_host r)).
+
 Definition render_field_with (hostport : str -> outcome (str * str)) (e_civil : event -> civil)
-           (f : fld) (e : event) : outcome str :=
+           (request_host : event -> outcome str) (f : fld) (e : event) : outcome str :=
   match f with
   | FRemoteAddr => with_req e (fun r => Ok (rq_remote r))
   | FRemoteHost => with_req e (fun r => do '(h, _) <- hostport (rq_remote r); Ok h)
   | FRemotePort => with_req e (fun r => do '(_, p) <- hostport (rq_remote r); Ok p)
   | FRequest => with_req e (fun r => Ok (rq_method r ++ [32] ++ rq_uri r ++ [32] ++ rq_proto r))
   | FRequestArgs => with_url (e_requrl e) u_rawquery
-  | FRequestHost => with_req e (fun r => Ok (rq_host r))
+  | FRequestHost => request_host e
   | FRequestMethod => with_req e (fun r => Ok (rq_method r))
   | FRequestScheme => with_url (e_requrl e) u_scheme
   | FRequestURI => with_req e (fun r => Ok (rq_uri r))
@@ -280,9 +291,9 @@ Definition render_field_with (hostport : str -> outcome (str * str)) (e_civil : 
   | FUpService => Ok (e_upsvc e)
   end.
 
-Definition render_field : fld -> event -> outcome str := render_field_with hostport e_civil.
+Definition render_field : fld -> event -> outcome str := render_field_with hostport e_civil request_host.
 Definition render_field_unrepaired : fld -> event -> outcome str :=
-  render_field_with hostport_unrepaired e_civil_unrepaired.
+  render_field_with hostport_unrepaired e_civil_unrepaired request_host_unrepaired.
 
 Definition field_names : list (str * fld) :=
   [ (bs "$remote_addr", FRemoteAddr); (bs "$remote_host", FRemoteHost); (bs "$remote_port", FRemotePort);
